@@ -114,7 +114,8 @@ def execute(acc, case):
                 # park sweep of the library's own threads: the receive worker (or the transport thread) stands at its k-th source
                 # line while the next bytes arrive and are taken in by the other one
                 who, k = case["park_worker"]
-                sc.sched.parks.append({"task": who, "nth": k, "timeout": 0.05, "release": lambda: not sc.node_sock.rx and sc.sched.now > t_inject[0] > 0})
+                funcs = {"read", "_read", "_set_selector_events_mask"} if who == "transport_layer_thread" else {"recv_message_from_queue", "_split_complete_messages"}
+                sc.sched.parks.append({"task": who, "nth": k, "funcs": funcs, "timeout": 0.05, "release": lambda: not sc.node_sock.rx and sc.sched.now > t_inject[0] > 0})
             if case.get("park") is not None:
                 # park sweep (DESIGN 2.5b): the application thread is descheduled at its n-th source line inside get_message()
                 # until the state machine has handed over every message of the sequence (or one virtual second has passed)
